@@ -17,6 +17,7 @@ package table
 import (
 	"bytes"
 	"encoding/binary"
+	"math"
 
 	"github.com/B1NARY-GR0UP/originium/pkg/bufferpool"
 	"github.com/B1NARY-GR0UP/originium/types"
@@ -105,6 +106,10 @@ func (i *Index) Encode() ([]byte, error) {
 	w.Write(binary.LittleEndian, i.DataBlock.Length)
 
 	for _, entry := range i.Entries {
+		// lengths are stored in 16 bits
+		if len(entry.StartKey) > math.MaxUint16 || len(entry.EndKey) > math.MaxUint16 {
+			return nil, ErrEntryTooLarge
+		}
 		w.Write(binary.LittleEndian, uint16(len(entry.StartKey)))
 		w.Write(binary.LittleEndian, []byte(entry.StartKey))
 		w.Write(binary.LittleEndian, uint16(len(entry.EndKey)))
